@@ -25,7 +25,8 @@ Inductive pstmt :=
   | PSBreak
   | PSContinue
   | PSRet (e : pexpr)
-  | PSTuple (xs : list nat) (es : list pexpr).        (* x1, ..., xn = e1, ..., en *)
+  | PSTuple (xs : list nat) (es : list pexpr)
+  | PSCall (x : nat) (f : nat) (args : list pexpr).   (* x = f(e1, ..., en), f a function of the module *)        (* x1, ..., xn = e1, ..., en *)
 
 Inductive pout := PNormal (env : list Z) | PBrk (env : list Z) | PCnt (env : list Z) | PRet (v : Z).
 Definition is_normal (o : pout) : bool := match o with PNormal _ => true | _ => false end.
@@ -55,47 +56,56 @@ Fixpoint pset_list (xs : list nat) (vs : list Z) (env : list Z) : option (list Z
   | _, _ => None
   end.
 
-Inductive pexec : pstmt -> list Z -> pout -> Prop :=
-  | E_pass env : pexec PSPass env (PNormal env)
+(* [fenv]: the functions (`def`s) of the module by number: (number of locals besides the parameters,
+   body).  A call evaluates the arguments left to right, runs the body on fresh variables
+   (parameters = argument values, the other locals unbound -- modelled as 0, never read before
+   being assigned in the subset) until it returns, and binds the result.  Recursion is
+   unrestricted: a derivation exists exactly for terminating executions. *)
+Inductive pexec (fenv : nat -> option (nat * pstmt)) : pstmt -> list Z -> pout -> Prop :=
+  | E_pass env : pexec fenv PSPass env (PNormal env)
   | E_assign env x e v env' :
-      eval64 env e = Some v -> pset x v env = Some env' -> pexec (PSAssign x e) env (PNormal env')
+      eval64 env e = Some v -> pset x v env = Some env' -> pexec fenv (PSAssign x e) env (PNormal env')
   | E_aug env x o e v env' :
       eval64 env (PBin o (PVar x) e) = Some v -> pset x v env = Some env' ->
-      pexec (PSAug x o e) env (PNormal env')
+      pexec fenv (PSAug x o e) env (PNormal env')
   | E_seq_n env a b e1 o :
-      pexec a env (PNormal e1) -> pexec b e1 o -> pexec (PSSeq a b) env o
+      pexec fenv a env (PNormal e1) -> pexec fenv b e1 o -> pexec fenv (PSSeq a b) env o
   | E_seq_x env a b o :
-      pexec a env o -> is_normal o = false -> pexec (PSSeq a b) env o
+      pexec fenv a env o -> is_normal o = false -> pexec fenv (PSSeq a b) env o
   | E_if env c a b bv o :
-      evalc64 env c = Some bv -> pexec (if bv then a else b) env o -> pexec (PSIf c a b) env o
+      evalc64 env c = Some bv -> pexec fenv (if bv then a else b) env o -> pexec fenv (PSIf c a b) env o
   | E_while_f env c b :
-      evalc64 env c = Some false -> pexec (PSWhile c b) env (PNormal env)
+      evalc64 env c = Some false -> pexec fenv (PSWhile c b) env (PNormal env)
   | E_while_step env c b o1 e1 o :
-      evalc64 env c = Some true -> pexec b env o1 -> continues o1 = Some e1 ->
-      pexec (PSWhile c b) e1 o -> pexec (PSWhile c b) env o
+      evalc64 env c = Some true -> pexec fenv b env o1 -> continues o1 = Some e1 ->
+      pexec fenv (PSWhile c b) e1 o -> pexec fenv (PSWhile c b) env o
   | E_while_brk env c b e1 :
-      evalc64 env c = Some true -> pexec b env (PBrk e1) -> pexec (PSWhile c b) env (PNormal e1)
+      evalc64 env c = Some true -> pexec fenv b env (PBrk e1) -> pexec fenv (PSWhile c b) env (PNormal e1)
   | E_while_ret env c b v :
-      evalc64 env c = Some true -> pexec b env (PRet v) -> pexec (PSWhile c b) env (PRet v)
+      evalc64 env c = Some true -> pexec fenv b env (PRet v) -> pexec fenv (PSWhile c b) env (PRet v)
   | E_for env x a b body va vb o :
       eval64 env a = Some va -> eval64 env b = Some vb ->
-      pfor x body (py_range va vb) env o -> pexec (PSFor x a b body) env o
-  | E_break env : pexec PSBreak env (PBrk env)
-  | E_continue env : pexec PSContinue env (PCnt env)
-  | E_ret env e v : eval64 env e = Some v -> pexec (PSRet e) env (PRet v)
+      pfor fenv x body (py_range va vb) env o -> pexec fenv (PSFor x a b body) env o
+  | E_break env : pexec fenv PSBreak env (PBrk env)
+  | E_continue env : pexec fenv PSContinue env (PCnt env)
+  | E_ret env e v : eval64 env e = Some v -> pexec fenv (PSRet e) env (PRet v)
   | E_tuple env xs es vs env' :
       eval64_list env es = Some vs -> pset_list xs vs env = Some env' ->
-      pexec (PSTuple xs es) env (PNormal env')
+      pexec fenv (PSTuple xs es) env (PNormal env')
+  | E_call env x f args vs nloc body rv env' :
+      eval64_list env args = Some vs -> fenv f = Some (nloc, body) ->
+      pexec fenv body (vs ++ repeat 0 nloc) (PRet rv) -> pset x rv env = Some env' ->
+      pexec fenv (PSCall x f args) env (PNormal env')
 (* the remaining values of the range *)
-with pfor : nat -> pstmt -> list Z -> list Z -> pout -> Prop :=
-  | F_done x body env : pfor x body [] env (PNormal env)
+with pfor (fenv : nat -> option (nat * pstmt)) : nat -> pstmt -> list Z -> list Z -> pout -> Prop :=
+  | F_done x body env : pfor fenv x body [] env (PNormal env)
   | F_step x body i r env e0 o1 e1 o :
-      pset x i env = Some e0 -> pexec body e0 o1 -> continues o1 = Some e1 ->
-      pfor x body r e1 o -> pfor x body (i :: r) env o
+      pset x i env = Some e0 -> pexec fenv body e0 o1 -> continues o1 = Some e1 ->
+      pfor fenv x body r e1 o -> pfor fenv x body (i :: r) env o
   | F_brk x body i r env e0 e1 :
-      pset x i env = Some e0 -> pexec body e0 (PBrk e1) -> pfor x body (i :: r) env (PNormal e1)
+      pset x i env = Some e0 -> pexec fenv body e0 (PBrk e1) -> pfor fenv x body (i :: r) env (PNormal e1)
   | F_ret x body i r env e0 v :
-      pset x i env = Some e0 -> pexec body e0 (PRet v) -> pfor x body (i :: r) env (PRet v).
+      pset x i env = Some e0 -> pexec fenv body e0 (PRet v) -> pfor fenv x body (i :: r) env (PRet v).
 
 Scheme pexec_mut := Minimality for pexec Sort Prop
   with pfor_mut := Minimality for pfor Sort Prop.
